@@ -10,210 +10,11 @@ use std::sync::Arc;
 verus! {
 //@ include prelude/dedup_types.rs
 
-pub const MDB_DEFAULT_FILE_FLAG: u32 = 0;
-pub const MDB_DEFAULT_CAS_FLAG: u32 = 0;
+//@ include prelude/dedup_model.rs
 
-//@ extract deduplication/src/chunking.rs struct Chunk
-//@ end
-impl Clone for Chunk {
-    #[verifier::external_body]
-    fn clone(&self) -> (r: Chunk) ensures r == *self { unimplemented!() }
-}
-//@ extract mdb_shard/src/file_structs.rs struct FileDataSequenceEntry
-//@ end
-impl Clone for FileDataSequenceEntry {
-    #[verifier::external_body]
-    fn clone(&self) -> (r: FileDataSequenceEntry) ensures r == *self { unimplemented!() }
-}
-impl FileDataSequenceEntry {
-//@ extract mdb_shard/src/file_structs.rs in `impl FileDataSequenceEntry` fn new
-//@ rules R15 R12
-//@ ret r
-//@ contract
-        requires unpacked_segment_bytes <= u32::MAX, chunk_index_start <= u32::MAX, chunk_index_end <= u32::MAX,
-        ensures r.cas_hash == cas_hash, r.cas_flags == 0, r.unpacked_segment_bytes == unpacked_segment_bytes,
-            r.chunk_index_start == chunk_index_start, r.chunk_index_end == chunk_index_end,
-//@ end
-}
-//@ extract deduplication/src/dedup_metrics.rs struct DeduplicationMetrics
-//@ end
-impl Clone for DeduplicationMetrics {
-    #[verifier::external_body]
-    fn clone(&self) -> (r: DeduplicationMetrics) ensures r == *self { unimplemented!() }
-}
-impl Copy for DeduplicationMetrics {}
-impl DeduplicationMetrics {
-    // derived Default: all counters zero (assumed: #[derive(Default)] on a struct of usize fields)
-    #[verifier::external_body]
-    fn default() -> (r: DeduplicationMetrics)
-        ensures r.total_bytes == 0, r.deduped_bytes == 0, r.new_bytes == 0, r.deduped_bytes_by_global_dedup == 0, r.defrag_prevented_dedup_bytes == 0,
-            r.total_chunks == 0, r.deduped_chunks == 0, r.new_chunks == 0, r.deduped_chunks_by_global_dedup == 0, r.defrag_prevented_dedup_chunks == 0,
-            r.xorb_bytes_uploaded == 0, r.shard_bytes_uploaded == 0, r.total_bytes_uploaded == 0,
-    { unimplemented!() }
-//@ extract deduplication/src/dedup_metrics.rs in `impl DeduplicationMetrics` fn merge_in
-//@ contract
-        requires
-            old(self).total_bytes + other.total_bytes <= usize::MAX, old(self).deduped_bytes + other.deduped_bytes <= usize::MAX,
-            old(self).new_bytes + other.new_bytes <= usize::MAX, old(self).deduped_bytes_by_global_dedup + other.deduped_bytes_by_global_dedup <= usize::MAX,
-            old(self).defrag_prevented_dedup_bytes + other.defrag_prevented_dedup_bytes <= usize::MAX,
-            old(self).total_chunks + other.total_chunks <= usize::MAX, old(self).deduped_chunks + other.deduped_chunks <= usize::MAX,
-            old(self).new_chunks + other.new_chunks <= usize::MAX, old(self).deduped_chunks_by_global_dedup + other.deduped_chunks_by_global_dedup <= usize::MAX,
-            old(self).defrag_prevented_dedup_chunks + other.defrag_prevented_dedup_chunks <= usize::MAX,
-            old(self).xorb_bytes_uploaded + other.xorb_bytes_uploaded <= usize::MAX, old(self).shard_bytes_uploaded + other.shard_bytes_uploaded <= usize::MAX,
-            old(self).total_bytes_uploaded + other.total_bytes_uploaded <= usize::MAX,
-        ensures /*@C14*/ metrics_sum(*old(self), *other, *final(self)),
-//@ end
-}
-spec fn metrics_sum(a: DeduplicationMetrics, b: DeduplicationMetrics, c: DeduplicationMetrics) -> bool {
-    &&& c.total_bytes == a.total_bytes + b.total_bytes &&& c.deduped_bytes == a.deduped_bytes + b.deduped_bytes
-    &&& c.new_bytes == a.new_bytes + b.new_bytes &&& c.deduped_bytes_by_global_dedup == a.deduped_bytes_by_global_dedup + b.deduped_bytes_by_global_dedup
-    &&& c.defrag_prevented_dedup_bytes == a.defrag_prevented_dedup_bytes + b.defrag_prevented_dedup_bytes
-    &&& c.total_chunks == a.total_chunks + b.total_chunks &&& c.deduped_chunks == a.deduped_chunks + b.deduped_chunks
-    &&& c.new_chunks == a.new_chunks + b.new_chunks &&& c.deduped_chunks_by_global_dedup == a.deduped_chunks_by_global_dedup + b.deduped_chunks_by_global_dedup
-    &&& c.defrag_prevented_dedup_chunks == a.defrag_prevented_dedup_chunks + b.defrag_prevented_dedup_chunks
-    &&& c.xorb_bytes_uploaded == a.xorb_bytes_uploaded + b.xorb_bytes_uploaded &&& c.shard_bytes_uploaded == a.shard_bytes_uploaded + b.shard_bytes_uploaded
-    &&& c.total_bytes_uploaded == a.total_bytes_uploaded + b.total_bytes_uploaded
-}
-
-// ---- R11 stub: fragmentation heuristics (floating point); every method is arbitrary, so the proofs cover every decision -------------
-pub struct DefragPrevention { pub x: u8 }
-impl DefragPrevention {
-    #[verifier::external_body] pub fn increment_last_range_in_fragmentation_estimate(&mut self, nchunks: usize) { unimplemented!() }
-    #[verifier::external_body] pub fn add_range_to_fragmentation_estimate(&mut self, nchunks: usize) { unimplemented!() }
-    #[verifier::external_body] pub fn allow_dedup_on_next_range(&mut self, n: usize) -> bool { unimplemented!() }
-}
-
-// ---- xorb construction ------------------------------------------------------------------------------------------------------------
-//@ extract mdb_shard/src/cas_structs.rs struct CASChunkSequenceHeader
-//@ end
-//@ extract mdb_shard/src/cas_structs.rs struct CASChunkSequenceEntry
-//@ end
-//@ extract mdb_shard/src/cas_structs.rs struct MDBCASInfo
-//@ end
-impl CASChunkSequenceHeader {
-//@ extract mdb_shard/src/cas_structs.rs in `impl CASChunkSequenceHeader` fn new
-//@ rules R15 R12
-//@ ret r
-//@ contract
-        requires num_entries <= u32::MAX, num_bytes_in_cas <= u32::MAX,
-        ensures r.cas_hash == cas_hash, r.num_entries == num_entries, r.num_bytes_in_cas == num_bytes_in_cas, r.cas_flags == 0, r.num_bytes_on_disk == 0,
-//@ end
-}
-impl CASChunkSequenceEntry {
-//@ extract mdb_shard/src/cas_structs.rs in `impl CASChunkSequenceEntry` fn new
-//@ rules R15 R12
-//@ ret r
-//@ contract
-        requires unpacked_segment_bytes <= u32::MAX, chunk_byte_range_start <= u32::MAX,
-        ensures r.chunk_hash == chunk_hash, r.unpacked_segment_bytes == unpacked_segment_bytes, r.chunk_byte_range_start == chunk_byte_range_start,
-//@ end
-}
-
-spec fn hashes(s: Seq<Chunk>) -> Seq<MerkleHash> { Seq::new(s.len(), |i: int| s[i].hash) }
-spec fn chunk_ok(c: Chunk) -> bool { c.data@.len() == len_of(c.hash) }
-spec fn chunks_ok(s: Seq<Chunk>) -> bool { forall|i: int| 0 <= i < s.len() ==> chunk_ok(#[trigger] s[i]) }
-spec fn hl_view(s: Seq<Chunk>) -> Seq<(MerkleHash, usize)> { Seq::new(s.len(), |i: int| (s[i].hash, s[i].data@.len() as usize)) }
-
-// the published xorb-hash construction is proved against a recursive spec in U-MERKLE; here it is an uninterpreted function of the
-// (hash, length) list.  Content addressing (assumed, per call): the hash names exactly this list and is not the zero hash.
-spec fn firsts(hl: Seq<(MerkleHash, usize)>) -> Seq<MerkleHash> { Seq::new(hl.len(), |i: int| hl[i].0) }
-pub uninterp spec fn cas_hash_spec(hl: Seq<(MerkleHash, usize)>) -> MerkleHash;
-#[verifier::external_body]
-fn cas_node_hash(hl: &[(MerkleHash, usize)]) -> (r: MerkleHash)
-    ensures r == cas_hash_spec(hl@), r != zero_hash(),
-        xorb_chunks(r) == firsts(hl@),
-{ unimplemented!() }
-// R7 outline of `chunks.iter().map(|c| (c.hash, c.data.len())).collect()` (iterator chain): assumed to be the projection it spells
-#[verifier::external_body]
-fn vx_hash_and_len(chunks: &[Chunk]) -> (r: Vec<(MerkleHash, usize)>)
-    ensures r@ == hl_view(chunks@)
-{ chunks.iter().map(|c| (c.hash, c.data.len())).collect() }
-
-//@ extract deduplication/src/raw_xorb_data.rs struct RawXorbData
-//@ end
-spec fn xorb_wf(x: RawXorbData, cs: Seq<Chunk>) -> bool {
-    &&& x.cas_info.metadata.cas_hash == cas_hash_spec(hl_view(cs))
-    &&& x.cas_info.metadata.cas_hash != zero_hash()
-    &&& xorb_chunks(x.cas_info.metadata.cas_hash) == hashes(cs)
-    &&& x.cas_info.metadata.num_entries == cs.len()
-    &&& x.cas_info.metadata.num_bytes_in_cas == sum_len(hashes(cs))
-    &&& x.cas_info.chunks@.len() == cs.len()
-    &&& x.data@.len() == cs.len()
-    &&& forall|i: int| 0 <= i < cs.len() ==> (#[trigger] x.cas_info.chunks@[i]).chunk_hash == cs[i].hash
-            && x.cas_info.chunks@[i].unpacked_segment_bytes == cs[i].data@.len()
-            && x.cas_info.chunks@[i].chunk_byte_range_start == sum_len(hashes(cs).subrange(0, i))
-    &&& forall|i: int| 0 <= i < cs.len() ==> (#[trigger] x.data@[i])@ == cs[i].data@
-}
-// C15: what may be handed to the store
-spec fn xorb_within_limits(x: RawXorbData) -> bool {
-    &&& 1 <= x.cas_info.chunks@.len() <= spec_MAX_XORB_CHUNKS()
-    &&& x.cas_info.metadata.num_bytes_in_cas <= spec_MAX_XORB_BYTES()
-    &&& x.cas_info.metadata.cas_hash != zero_hash()
-}
-impl RawXorbData {
-//@ extract deduplication/src/raw_xorb_data.rs in `impl RawXorbData` fn from_chunks
-//@ rules R4g
-//@ ret r
-//@ subst `let mut chunk_seq_entries =` => `let mut chunk_seq_entries: Vec<CASChunkSequenceEntry> =` :: type annotation only (the spliced invariant mentions the variable before inference fixes its type; rustc checks it)
-//@ subst `let mut data =` => `let mut data: Vec<Arc<[u8]>> =` :: type annotation only
-//@ subst `chunks.iter().map(|c| (c.hash, c.data.len())).collect()` => `vx_hash_and_len(chunks)` :: R7 outline of an iterator chain (projection to (hash, len) pairs)
-//@ contract
-        requires xorb_config_ok(), chunks_ok(chunks@),
-            /*@C15*/ chunks@.len() <= spec_MAX_XORB_CHUNKS(), sum_len(hashes(chunks@)) <= spec_MAX_XORB_BYTES(),
-        ensures /*@C02,C15*/ xorb_wf(r, chunks@),
-//@ loop 1
-            invariant
-                vx_n1 <= chunks@.len(), chunks_ok(chunks@), xorb_config_ok(),
-                chunks@.len() <= spec_MAX_XORB_CHUNKS(), sum_len(hashes(chunks@)) <= spec_MAX_XORB_BYTES(),
-                pos == sum_len(hashes(chunks@).subrange(0, vx_n1 as int)),
-                data@.len() == vx_n1, chunk_seq_entries@.len() == vx_n1,
-                forall|i: int| 0 <= i < vx_n1 ==> (#[trigger] chunk_seq_entries@[i]).chunk_hash == chunks@[i].hash
-                    && chunk_seq_entries@[i].unpacked_segment_bytes == chunks@[i].data@.len()
-                    && chunk_seq_entries@[i].chunk_byte_range_start == sum_len(hashes(chunks@).subrange(0, i)),
-                forall|i: int| 0 <= i < vx_n1 ==> (#[trigger] data@[i])@ == chunks@[i].data@,
-            decreases chunks@.len() - vx_n1,
-//@ before `chunk_seq_entries.push(`
-            proof {
-                let hs = hashes(chunks@);
-                let k = (vx_n1 - 1) as int;
-                lemma_sum_len_subrange(hs, 0, k);
-                lemma_sum_len_subrange(hs, 0, k + 1);
-                lemma_sum_len_split(hs, 0, k, k + 1);
-                lemma_sum_len_one(hs, k);
-                assert(hs[k] == chunks@[k].hash);
-                assert(hs.subrange(0, hs.len() as int) =~= hs);
-                lemma_sum_len_subrange(hs, 0, hs.len() as int);
-            }
-//@ before `let num_bytes = pos;`
-        proof { assert(hashes(chunks@).subrange(0, chunks@.len() as int) =~= hashes(chunks@)); assert(firsts(hl_view(chunks@)) =~= hashes(chunks@)); }
-//@ end
-//@ extract deduplication/src/raw_xorb_data.rs in `impl RawXorbData` fn hash
-//@ ret r
-//@ contract
-        ensures r == self.cas_info.metadata.cas_hash,
-//@ end
-}
+//@ include prelude/dedup_segments.rs
 
 // ---- the store / session interface: callee contracts (assumed about implementors; DESIGN.md U-DEDUP) ------------------------------
-// A dedup answer (n, fse) for the query hashes q is *truthful* (C05) when the first n query hashes are the chunk hashes of xorb
-// fse.cas_hash at [start, start+n), the byte count is the sum of their lengths, and the xorb obeys the u32 format limit.
-spec fn seg_src(e: FileDataSequenceEntry, nd: Seq<MerkleHash>) -> Seq<MerkleHash> {
-    if e.cas_hash == zero_hash() { nd } else { xorb_chunks(e.cas_hash) }
-}
-spec fn seg_den(e: FileDataSequenceEntry, nd: Seq<MerkleHash>) -> Seq<MerkleHash> {
-    seg_src(e, nd).subrange(e.chunk_index_start as int, e.chunk_index_end as int)
-}
-spec fn seg_ok(e: FileDataSequenceEntry, nd: Seq<MerkleHash>) -> bool {
-    &&& e.chunk_index_start < e.chunk_index_end <= seg_src(e, nd).len()
-    &&& e.unpacked_segment_bytes == sum_len(seg_den(e, nd))
-    &&& sum_len(seg_src(e, nd)) <= u32::MAX
-}
-spec fn truthful(q: Seq<MerkleHash>, n: int, fse: FileDataSequenceEntry) -> bool {
-    &&& 1 <= n <= q.len()
-    &&& fse.cas_hash != zero_hash()
-    &&& seg_ok(fse, Seq::<MerkleHash>::empty())
-    &&& seg_den(fse, Seq::<MerkleHash>::empty()) == q.subrange(0, n)
-}
 trait DeduplicationDataInterface: Sized {
     type ErrorType;
 //@ extract deduplication/src/interface.rs in `DeduplicationDataInterface` fn chunk_hash_dedup_query
@@ -243,202 +44,6 @@ fn vx_extend_hash_len(v: &mut Vec<(MerkleHash, usize)>, chunks: &[Chunk])
 { v.extend(chunks.iter().map(|c| (c.hash, c.data.len()))); }
 // R7 outline: `hash_is_global_dedup_eligible` (mdb_shard) only gates an optional background query; arbitrary
 #[verifier::external_body] fn hash_is_global_dedup_eligible(h: &MerkleHash) -> bool { unimplemented!() }
-
-spec fn flatten(fi: Seq<FileDataSequenceEntry>, nd: Seq<MerkleHash>) -> Seq<MerkleHash> decreases fi.len() {
-    if fi.len() == 0 { Seq::<MerkleHash>::empty() } else { flatten(fi.drop_last(), nd) + seg_den(fi.last(), nd) }
-}
-spec fn ch_hashes(s: Seq<(MerkleHash, usize)>) -> Seq<MerkleHash> { Seq::new(s.len(), |i: int| s[i].0) }
-spec fn lookup_ok(m: Map<MerkleHash, usize>, nd: Seq<MerkleHash>) -> bool {
-    forall|h: MerkleHash| m.contains_key(h) ==> (#[trigger] m[h]) < nd.len() && nd[m[h] as int] == h
-}
-// the list of indices whose segment still refers to the xorb under construction (zero hash): exactly those
-spec fn ire_ok(ire: Seq<usize>, fi: Seq<FileDataSequenceEntry>) -> bool {
-    &&& forall|j: int| 0 <= j < ire.len() ==> (#[trigger] ire[j]) < fi.len() && fi[ire[j] as int].cas_hash == zero_hash()
-    &&& forall|i: int| 0 <= i < fi.len() && (#[trigger] fi[i]).cas_hash == zero_hash() ==> exists|j: int| 0 <= j < ire.len() && #[trigger] ire[j] == i
-    &&& forall|j1: int, j2: int| 0 <= j1 < j2 < ire.len() ==> (#[trigger] ire[j1]) < (#[trigger] ire[j2])
-}
-spec fn metrics_ok(m: DeduplicationMetrics, fed: Seq<MerkleHash>) -> bool {
-    &&& /*C14*/ m.total_bytes == sum_len(fed) && m.total_chunks == fed.len()
-    &&& m.new_bytes + m.deduped_bytes == m.total_bytes && m.new_chunks + m.deduped_chunks == m.total_chunks
-    &&& m.defrag_prevented_dedup_bytes <= m.new_bytes && m.defrag_prevented_dedup_chunks <= m.new_chunks
-    &&& m.deduped_bytes_by_global_dedup <= m.total_bytes && m.deduped_chunks_by_global_dedup <= m.total_chunks
-}
-
-
-proof fn lemma_flatten_push(fi: Seq<FileDataSequenceEntry>, nd: Seq<MerkleHash>, e: FileDataSequenceEntry)
-    ensures flatten(fi.push(e), nd) == flatten(fi, nd) + seg_den(e, nd)
-{ assert(fi.push(e).drop_last() =~= fi); }
-spec fn merged(last: FileDataSequenceEntry, fse: FileDataSequenceEntry) -> FileDataSequenceEntry {
-    FileDataSequenceEntry { cas_hash: last.cas_hash, cas_flags: last.cas_flags,
-        unpacked_segment_bytes: (last.unpacked_segment_bytes + fse.unpacked_segment_bytes) as u32,
-        chunk_index_start: last.chunk_index_start, chunk_index_end: fse.chunk_index_end }
-}
-// extending the last segment by a contiguous range of the same xorb
-proof fn lemma_extend_last(fi: Seq<FileDataSequenceEntry>, nd: Seq<MerkleHash>, fse: FileDataSequenceEntry)
-    requires fi.len() > 0, fi.last().cas_hash == fse.cas_hash, fi.last().chunk_index_end == fse.chunk_index_start,
-        seg_ok(fi.last(), nd), seg_ok(fse, nd),
-    ensures
-        fi.last().unpacked_segment_bytes + fse.unpacked_segment_bytes <= u32::MAX,
-        seg_ok(merged(fi.last(), fse), nd),
-        seg_den(merged(fi.last(), fse), nd) == seg_den(fi.last(), nd) + seg_den(fse, nd),
-        flatten(fi.drop_last().push(merged(fi.last(), fse)), nd) == flatten(fi, nd) + seg_den(fse, nd),
-{
-    let l = fi.last(); let m = merged(l, fse); let src = seg_src(l, nd);
-    assert(seg_src(fse, nd) == src); assert(seg_src(m, nd) == src);
-    lemma_sum_len_split(src, l.chunk_index_start as int, l.chunk_index_end as int, fse.chunk_index_end as int);
-    lemma_sum_len_subrange(src, l.chunk_index_start as int, fse.chunk_index_end as int);
-    assert(seg_den(m, nd) =~= seg_den(l, nd) + seg_den(fse, nd));
-    lemma_flatten_push(fi.drop_last(), nd, m);
-    assert(flatten(fi, nd) == flatten(fi.drop_last(), nd) + seg_den(l, nd));
-    assert((flatten(fi.drop_last(), nd) + seg_den(l, nd)) + seg_den(fse, nd) =~= flatten(fi.drop_last(), nd) + (seg_den(l, nd) + seg_den(fse, nd)));
-}
-proof fn lemma_ire_update(ire: Seq<usize>, fi: Seq<FileDataSequenceEntry>, i: int, e: FileDataSequenceEntry)
-    requires ire_ok(ire, fi), 0 <= i < fi.len(), e.cas_hash == fi[i].cas_hash,
-    ensures ire_ok(ire, fi.update(i, e)),
-{
-    let fi2 = fi.update(i, e);
-    assert forall|k: int| 0 <= k < fi2.len() && (#[trigger] fi2[k]).cas_hash == zero_hash() implies exists|j: int| 0 <= j < ire.len() && #[trigger] ire[j] == k by {
-        assert(fi[k].cas_hash == zero_hash());
-    }
-}
-proof fn lemma_ire_push(ire: Seq<usize>, fi: Seq<FileDataSequenceEntry>, e: FileDataSequenceEntry)
-    requires ire_ok(ire, fi), fi.len() <= usize::MAX,
-    ensures e.cas_hash != zero_hash() ==> ire_ok(ire, fi.push(e)),
-            e.cas_hash == zero_hash() ==> ire_ok(ire.push(fi.len() as usize), fi.push(e)),
-{
-    let fi2 = fi.push(e);
-    if e.cas_hash != zero_hash() {
-        assert forall|k: int| 0 <= k < fi2.len() && (#[trigger] fi2[k]).cas_hash == zero_hash() implies exists|j: int| 0 <= j < ire.len() && #[trigger] ire[j] == k by {
-            assert(k < fi.len()); assert(fi[k].cas_hash == zero_hash());
-        }
-    } else {
-        let ire2 = ire.push(fi.len() as usize);
-        assert forall|j: int| 0 <= j < ire2.len() implies (#[trigger] ire2[j]) < fi2.len() && fi2[ire2[j] as int].cas_hash == zero_hash() by {
-            if j < ire.len() { assert(ire2[j] == ire[j]); }
-        }
-        assert forall|k: int| 0 <= k < fi2.len() && (#[trigger] fi2[k]).cas_hash == zero_hash() implies exists|j: int| 0 <= j < ire2.len() && #[trigger] ire2[j] == k by {
-            if k < fi.len() {
-                assert(fi[k].cas_hash == zero_hash());
-                let j = choose|j: int| 0 <= j < ire.len() && #[trigger] ire[j] == k;
-                assert(ire2[j] == k);
-            } else {
-                assert(ire2[ire.len() as int] == k);
-            }
-        }
-    }
-}
-
-
-// ---- cutting a xorb: every zero-hash segment is re-pointed at the new xorb X, whose chunk list is the old new_data -------------------
-spec fn patched(a: FileDataSequenceEntry, b: FileDataSequenceEntry, x: MerkleHash) -> bool {
-    &&& b.cas_flags == a.cas_flags && b.unpacked_segment_bytes == a.unpacked_segment_bytes
-    &&& b.chunk_index_start == a.chunk_index_start && b.chunk_index_end == a.chunk_index_end
-    &&& (b.cas_hash == a.cas_hash || (a.cas_hash == zero_hash() && b.cas_hash == x))
-}
-proof fn lemma_cut_flatten(fi0: Seq<FileDataSequenceEntry>, fi1: Seq<FileDataSequenceEntry>, nd0: Seq<MerkleHash>, x: MerkleHash)
-    requires fi0.len() == fi1.len(), x != zero_hash(), xorb_chunks(x) == nd0, sum_len(nd0) <= u32::MAX,
-        forall|i: int| 0 <= i < fi0.len() ==> patched(#[trigger] fi0[i], fi1[i], x) && fi1[i].cas_hash != zero_hash() && seg_ok(fi0[i], nd0),
-    ensures flatten(fi1, Seq::<MerkleHash>::empty()) == flatten(fi0, nd0),
-        forall|i: int| 0 <= i < fi1.len() ==> seg_ok(#[trigger] fi1[i], Seq::<MerkleHash>::empty()),
-    decreases fi0.len()
-{
-    let e = Seq::<MerkleHash>::empty();
-    if fi0.len() > 0 {
-        let n = fi0.len() - 1;
-        assert forall|i: int| 0 <= i < fi0.drop_last().len() implies patched(#[trigger] fi0.drop_last()[i], fi1.drop_last()[i], x)
-            && fi1.drop_last()[i].cas_hash != zero_hash() && seg_ok(fi0.drop_last()[i], nd0) by { assert(fi0.drop_last()[i] == fi0[i]); }
-        lemma_cut_flatten(fi0.drop_last(), fi1.drop_last(), nd0, x);
-        assert(patched(fi0[n], fi1[n], x));
-        assert(seg_src(fi1[n], e) == seg_src(fi0[n], nd0));
-        assert(seg_den(fi1[n], e) == seg_den(fi0[n], nd0));
-        assert forall|i: int| 0 <= i < fi1.len() implies seg_ok(#[trigger] fi1[i], e) by {
-            assert(patched(fi0[i], fi1[i], x));
-            assert(seg_src(fi1[i], e) == seg_src(fi0[i], nd0));
-            if i < n { assert(fi1.drop_last()[i] == fi1[i]); }
-        }
-    }
-}
-
-
-// ---- appending one new chunk hash h to the xorb under construction ---------------------------------------------------------------
-proof fn lemma_nd_push(fi: Seq<FileDataSequenceEntry>, nd: Seq<MerkleHash>, h: MerkleHash)
-    requires forall|i: int| 0 <= i < fi.len() ==> seg_ok(#[trigger] fi[i], nd), sum_len(nd) + len_of(h) <= u32::MAX,
-    ensures forall|i: int| 0 <= i < fi.len() ==> seg_ok(#[trigger] fi[i], nd.push(h)) && seg_den(fi[i], nd.push(h)) == seg_den(fi[i], nd),
-        flatten(fi, nd.push(h)) == flatten(fi, nd),
-    decreases fi.len()
-{
-    lemma_sum_len_push(nd, h);
-    assert forall|i: int| 0 <= i < fi.len() implies seg_ok(#[trigger] fi[i], nd.push(h)) && seg_den(fi[i], nd.push(h)) == seg_den(fi[i], nd) by {
-        if fi[i].cas_hash == zero_hash() {
-            assert(nd.push(h).subrange(fi[i].chunk_index_start as int, fi[i].chunk_index_end as int) =~= nd.subrange(fi[i].chunk_index_start as int, fi[i].chunk_index_end as int));
-        }
-    }
-    if fi.len() > 0 {
-        assert forall|i: int| 0 <= i < fi.drop_last().len() implies seg_ok(#[trigger] fi.drop_last()[i], nd) by { assert(fi.drop_last()[i] == fi[i]); }
-        lemma_nd_push(fi.drop_last(), nd, h);
-    }
-}
-spec fn grown(last: FileDataSequenceEntry, h: MerkleHash) -> FileDataSequenceEntry {
-    FileDataSequenceEntry { cas_hash: last.cas_hash, cas_flags: last.cas_flags,
-        unpacked_segment_bytes: (last.unpacked_segment_bytes + len_of(h)) as u32,
-        chunk_index_start: last.chunk_index_start, chunk_index_end: (last.chunk_index_end + 1) as u32 }
-}
-// case A: the last segment is the open zero-hash run ending at |nd|; it grows by the new chunk
-proof fn lemma_new_chunk_extend(fi: Seq<FileDataSequenceEntry>, nd: Seq<MerkleHash>, h: MerkleHash)
-    requires fi.len() > 0, fi.last().cas_hash == zero_hash(), fi.last().chunk_index_end == nd.len(),
-        forall|i: int| 0 <= i < fi.len() ==> seg_ok(#[trigger] fi[i], nd), sum_len(nd) + len_of(h) <= u32::MAX, nd.len() < u32::MAX,
-    ensures
-        fi.last().unpacked_segment_bytes + len_of(h) <= u32::MAX,
-        forall|i: int| 0 <= i < fi.len() ==> seg_ok(#[trigger] fi.update(fi.len() - 1, grown(fi.last(), h))[i], nd.push(h)),
-        flatten(fi.update(fi.len() - 1, grown(fi.last(), h)), nd.push(h)) == flatten(fi, nd).push(h),
-{
-    let l = fi.last(); let g = grown(l, h); let nd2 = nd.push(h); let fi2 = fi.update(fi.len() - 1, g);
-    lemma_nd_push(fi, nd, h);
-    lemma_sum_len_push(nd, h);
-    lemma_sum_len_subrange(nd, l.chunk_index_start as int, l.chunk_index_end as int);
-    assert(seg_den(g, nd2) =~= seg_den(l, nd).push(h));
-    lemma_sum_len_push(seg_den(l, nd), h);
-    assert(fi2.drop_last() =~= fi.drop_last());
-    assert forall|i: int| 0 <= i < fi.drop_last().len() implies seg_ok(#[trigger] fi.drop_last()[i], nd) by { assert(fi.drop_last()[i] == fi[i]); }
-    lemma_nd_push(fi.drop_last(), nd, h);
-    assert(flatten(fi2, nd2) == flatten(fi2.drop_last(), nd2) + seg_den(g, nd2));
-    assert(flatten(fi, nd) == flatten(fi.drop_last(), nd) + seg_den(l, nd));
-    assert(flatten(fi.drop_last(), nd) + seg_den(l, nd).push(h) =~= (flatten(fi.drop_last(), nd) + seg_den(l, nd)).push(h));
-    assert forall|i: int| 0 <= i < fi.len() implies seg_ok(#[trigger] fi2[i], nd2) by {
-        if i < fi.len() - 1 { assert(fi2[i] == fi[i]); }
-    }
-}
-// case B: a fresh zero-hash segment [|nd|, |nd|+1) is pushed
-proof fn lemma_new_chunk_push(fi: Seq<FileDataSequenceEntry>, nd: Seq<MerkleHash>, h: MerkleHash, e: FileDataSequenceEntry)
-    requires forall|i: int| 0 <= i < fi.len() ==> seg_ok(#[trigger] fi[i], nd), sum_len(nd) + len_of(h) <= u32::MAX,
-        e.cas_hash == zero_hash(), e.chunk_index_start == nd.len(), e.chunk_index_end == nd.len() + 1, e.unpacked_segment_bytes == len_of(h),
-    ensures
-        forall|i: int| 0 <= i < fi.len() + 1 ==> seg_ok(#[trigger] fi.push(e)[i], nd.push(h)),
-        flatten(fi.push(e), nd.push(h)) == flatten(fi, nd).push(h),
-{
-    let nd2 = nd.push(h);
-    lemma_nd_push(fi, nd, h);
-    lemma_sum_len_push(nd, h);
-    lemma_sum_len_one(nd2, nd.len() as int);
-    assert(seg_den(e, nd2) =~= seq![h]);
-    lemma_flatten_push(fi, nd2, e);
-    assert(flatten(fi, nd) + seq![h] =~= flatten(fi, nd).push(h));
-    assert forall|i: int| 0 <= i < fi.len() + 1 implies seg_ok(#[trigger] fi.push(e)[i], nd2) by {
-        if i < fi.len() { assert(fi.push(e)[i] == fi[i]); }
-    }
-}
-proof fn lemma_lookup_insert(m: Map<MerkleHash, usize>, nd: Seq<MerkleHash>, h: MerkleHash)
-    requires lookup_ok(m, nd), nd.len() < usize::MAX,
-    ensures lookup_ok(m.insert(h, nd.len() as usize), nd.push(h)),
-{
-    let m2 = m.insert(h, nd.len() as usize); let nd2 = nd.push(h);
-    assert forall|k: MerkleHash| m2.contains_key(k) implies (#[trigger] m2[k]) < nd2.len() && nd2[m2[k] as int] == k by {
-        if k != h { assert(m.contains_key(k)); assert(m[k] < nd.len()); }
-    }
-}
-spec fn answers_ok(d: Seq<Option<(usize, FileDataSequenceEntry)>>, hs: Seq<MerkleHash>) -> bool {
-    forall|i: int| 0 <= i < d.len() ==> match #[trigger] d[i] { Some((n, fse)) => truthful(hs.subrange(i, hs.len() as int), n as int, fse), None => true }
-}
 
 //@ extract deduplication/src/file_deduplication.rs struct FileDeduper
 //@ end
@@ -551,9 +156,11 @@ impl<DataInterfaceType: DeduplicationDataInterface> FileDeduper<DataInterfaceTyp
 //@ subst `MerkleHash::default()` => `zero_hash()` :: spec form of Default::default() — all occurrences are inside debug assertions turned into proof obligations by R2
 //@ contract
         requires old(self).istruct(),
+            // the only caller (process_chunks) cuts only when the next chunk does not fit, hence with at least one chunk
+            old(self).new_data@.len() >= 1,
         ensures
             /*@C02,C15*/ xorb_wf(r, old(self).new_data@),
-            /*@C15*/ old(self).new_data@.len() >= 1 ==> xorb_within_limits(r),
+            /*@C15*/ xorb_within_limits(r),
             final(self).istruct(),
             /*@C01*/ final(self).den() == old(self).den(),
             final(self).new_data@.len() == 0,
